@@ -58,9 +58,10 @@ def gen_rules(rng):
     return rules
 
 
-def probe(s, rng, cid, rules):
+def probe(s, rng, cid, rules, ip=None):
     """One probe client: attributes chosen to hit or just miss the criteria, then forced to a verdict."""
-    ip = rng.choice(IPS)
+    ip0 = rng.choice(IPS)
+    ip = ip or ip0
     ident = rng.choice(IDENTS)
     host = rng.choice(HOSTS)
     acct = rng.choice(ACCOUNTS)
